@@ -164,7 +164,11 @@ class C02Monitor(Monitor):
                     same = post == N
                     zero = post == 0
                     okz = same | zero
-                    allowed = (N < 1) | (Rc < minR) | (np.arange(len(N)) <= max(rdf, int(model.RdrivingForceIndex[p])))
+                    # classes whose centre lies below the minimum radius are NOT in this list: the reported statistics are
+                    # computed from a distribution in which they are already empty, so a class that is populated in the
+                    # statistics and emptied afterwards is a difference between the statistics and the distribution
+                    # (seeded change C02-e: the two sites disagreed about the class that straddles the minimum radius)
+                    allowed = (N < 1) | (np.arange(len(N)) <= max(rdf, int(model.RdrivingForceIndex[p])))
                     bad = (~okz) | (zero & ~same & ~allowed)
                     R.check('c02.removal', not bool(np.any(bad)), _mech(run, model, p, grid='unchanged'), step=c['step'],
                             bad_classes=np.nonzero(bad)[0], before=N[bad], after=post[bad])
